@@ -247,7 +247,9 @@ fn run_one(f: &Flow, inp: &RunIn<'_>) -> RunOut {
             return out;
         }
         Verdict::Panic(msg, loc) => {
-            if panic_in_sut(loc) {
+            if msg.starts_with(STEP_CAP_MSG) {
+                out.fail("livelock/raft", msg.clone());
+            } else if panic_in_sut(loc) {
                 let file = loc.rsplit('/').next().unwrap_or(loc).split(':').next().unwrap_or("").to_string();
                 out.fail(format!("panic/raft/{file}"), format!("panic at {loc}: {msg}"));
             } else {
